@@ -248,6 +248,13 @@ def generate_source_code(docstring, parsed):
                     more_imports.append(stmt.name)
             ancestor = ancestor.extends
 
+        if parsed.extends is not None:
+            # Also inherit the rules that have no public name (anonymous
+            # "ignore" statements).
+            out += Code('for _name, _impl in vars(_super_ctx).items():')
+            out += Code('    if _name.startswith("_try_") and not hasattr(_ctx, _name):')
+            out += Code('        setattr(_ctx, _name, _impl)')
+
         if more_imports:
             lines = ',\n    '.join(sorted(more_imports))
             out.append_global(Code(
